@@ -20,7 +20,8 @@ def gen_shape(rng: random.Random) -> dict:
         width = rng.randint(1, 4)
         for _ in range(width):
             nn = names.fresh("n")
-            nodes.append({"name": nn, "kind": "fn", "params": [["x", None]], "dataOuts": [names.fresh("v")], "body": {"b": "tag", "t": nn}})
+            nodes.append({"name": nn, "kind": "fn", "params": [["x", None]], "dataOuts": [names.fresh("v")], "body": {"b": "tag", "t": nn},
+                          "syncBody": rng.random() < 0.25})      # plain `def` functions next to `async def` ones: both count
         if depth > 0:
             for _ in range(rng.randint(1, 2)):
                 inner = level(depth - 1)
